@@ -54,7 +54,7 @@ UntypedKinds == JsonKinds \cup LossyKinds
 \* exception kinds, split by what cls(str(exc)) does
 FixpointExc == {"builtin_msg", "builtin_empty", "builtin_uni", "builtin_args2", "oserror", "custom_msg", "custom_empty", "chained"}
 StrWrapExc  == {"keyerror", "custom_str"}                              \* str(cls(m)) # m
-CtorExc     == {"custom_ctor2", "stdlib_ctor", "pydantic_validation"}  \* cls(m) raises TypeError
+CtorExc     == {"custom_ctor2", "stdlib_ctor", "pydantic_validation"}  \* cls(m) raises (TypeError, ValueError, AttributeError, ...)
 FallbackExc == {"unresolvable_local", "unresolvable_nested"}           \* class cannot be re-imported: documented fallback to Exception(m)
 ExcKinds    == FixpointExc \cup StrWrapExc \cup CtorExc \cup FallbackExc
 
